@@ -362,7 +362,8 @@ impl World {
                         let first = g.seen_irq_tids.insert((r.pid.clone(), r.tid.clone()));
                         if first {
                             let occ = {
-                                let o = g.occ.entry(r.key.clone()).or_default();
+                                // occurrences are counted per process
+                                let o = g.occ.entry(format!("{}\u{1}{}", r.pid, r.key)).or_default();
                                 *o += 1;
                                 *o - 1
                             };
